@@ -91,6 +91,16 @@ class MachineryError(Exception):
     pass
 
 
+class ImplFailure(Exception):
+    """The implementation refused or crashed on an input the harness builds as part of its set-up (a constructor call with
+    valid arguments, a load of a file the harness wrote, ...).  That is a failure of the code under test on a concrete input —
+    reported as a violation with that input — not a failure of the machinery."""
+
+    def __init__(self, what, input, exc):
+        Exception.__init__(self, what)
+        self.what, self.input, self.exc = what, input, exc
+
+
 class Ctx:
     def __init__(self, prop, tier, seed):
         self.prop = prop
